@@ -222,8 +222,8 @@ class ClassHarness:
             return ctx.fresh(name, "val")
         if kind == "exc":
             v = SV(ctx.fresh(name, "val").t, "val", tag="exc")
-            # A-exc: an exception instance is not None and is truthy
-            ctx.assume(z3.And(v.t != smt.NONE, smt.truthy(v.t)))
+            # A-exc: an exception instance is not None; its truth value is arbitrary (a class may define __bool__ / __len__)
+            ctx.assume(v.t != smt.NONE)
             return v
         if kind == "int":
             return ctx.fresh(name, "int")
